@@ -43,6 +43,8 @@ def cases(tier, seed):
     defs += [space.assumed(d) for d in space.family_cse("quick") if any(t in d["name"] for t in ("chain4", "ctl-only", "nest3b"))]
     # block-size sweep (n = 1..8 statements per model block, rows with many temporaries of their own)
     defs += space.family_sizes(tier)
+    # intermediates that overflow to inf while the value stays defined (1/(1 + exp(896)) = 0)
+    defs += space.family_extreme()
     for d in defs:
         nsym = len(d["state"]) + len(d["control"])
         p = per if nsym <= 5 else 2
